@@ -287,6 +287,9 @@ MUTANTS += [
     m("c03-revert-f7a", "C03", "R03.2", [(IF, "        // The next label length byte has to lie inside the domain name\n        if (pos >= dname.size())\n            return wire_dname;\n\n", "")], "label walk without position check (reverted F7)"),
     m("c03-off-by-one", "C03", "R03.2", [(IF, "        if (pos >= dname.size())\n            return wire_dname;", "        if (pos > dname.size())\n            return wire_dname;")], "label walk accepts pos == size and then writes the terminator position"),
     m("c03-revert-f7b", "C03", "R03.6", [(IF, "    // Wire format address has to be exactly 4 (IPv4) or 16 (IPv6) bytes long\n    if (wire_ip.size() != (ipv6 ? 16 : 4))\n        return wire_ip;\n\n", "")], "inet_ntop on an address of unchecked length (reverted F7)"),
+    m("c03-revert-f18", "C03", "R03.5", [(TS, "    uint64_t ticks = (m_secs * ticks_per_second) + m_ticks;\n    uint64_t ref_ticks = (reference.m_secs * ticks_per_second) + reference.m_ticks;\n\n    // Subtract the unsigned tick counts (wrap-around is defined) and convert the difference afterwards\n    return static_cast<int64_t>(ticks - ref_ticks);",
+       "    int64_t ticks = (m_secs * ticks_per_second) + m_ticks;\n    int64_t ref_ticks = (reference.m_secs * ticks_per_second) + reference.m_ticks;\n\n    return ticks - ref_ticks;")],
+      "tick totals subtracted as int64_t (F18: overflow for totals >= 2^63 re-exported by cdns-merge)"),
     m("c03-revert-f8", "C03", "R03.5", [(TS, "        uint64_t back = static_cast<uint64_t>(-(offset + 1)) + 1;", "        uint64_t back = static_cast<uint64_t>(-offset);")], "negation of INT64_MIN"),
     m("c03-revert-f5", "C03", "R03.4", [(DE, "                // A tag is a single data item together with its content\n                pending.push_back({1, false});", "                // A tag is a single data item together with its content\n                skip_item();")], "tag content skipped recursively: depth controlled by the input"),
     m("c03-throw-int", "C03", "R03.7", [(B, "        throw CdnsDecoderException(\"Given Block parameters array is empty!\");", "        throw -1;")], "an int is thrown on the read path"),
@@ -397,7 +400,7 @@ MUTANTS += [
     m("c01-prepend", "C01", "R01.8", [(B, "    if (mm_filled)\n        m_malformed_messages.push_back(mm);", "    if (mm_filled)\n        m_malformed_messages.insert(m_malformed_messages.begin(), mm);")], "malformed messages stored in reverse order"),
     m("c07-negative", "C07", "R07.6", [(DE, "    return -1 - read_int(item_length);", "    return -read_int(item_length);")], "negative integers decoded as -n"),
     m("c07-bool-swapped", "C07", "R07.6", [(DE, "        return bool_value == 21;", "        return bool_value == 20;")], "simple values 20/21 decoded swapped"),
-    m("c17-sign", "C17", "R17.6", [(TS, "    return ticks - ref_ticks;", "    return ref_ticks - ticks;")], "offset sign reversed"),
-    m("c17-formula", "C17", "R17.6", [(TS, "    int64_t ref_ticks = (reference.m_secs * ticks_per_second) + reference.m_ticks;", "    int64_t ref_ticks = (reference.m_secs * ticks_per_second) + m_ticks;")], "reference total uses this->m_ticks"),
+    m("c17-sign", "C17", "R17.6", [(TS, "    return static_cast<int64_t>(ticks - ref_ticks);", "    return static_cast<int64_t>(ref_ticks - ticks);")], "offset sign reversed"),
+    m("c17-formula", "C17", "R17.6", [(TS, "    uint64_t ref_ticks = (reference.m_secs * ticks_per_second) + reference.m_ticks;", "    uint64_t ref_ticks = (reference.m_secs * ticks_per_second) + m_ticks;")], "reference total uses this->m_ticks"),
     m("c20-rand", "C20", "R20.2", [(EN, "void CDNS::CdnsEncoder::flush_buffer()\n{", "void CDNS::CdnsEncoder::flush_buffer()\n{\n    if (std::rand() == -1)\n        return;")], "std::rand (hidden global state) called on the write path"),
 ]
